@@ -91,9 +91,11 @@ Inductive inc_result := IR_fail | IR_repl (nodes : list node) (hist' : list path
     a violation is a DOMException(HIERARCHY_REQUEST_ERR) that leaves parse()/doXIncludeDOMProcess *)
 Fixpoint count_elem_nodes (l : list node) : nat :=
   match l with [] => O | Elem _ _ _ _ :: r => S (count_elem_nodes r) | _ :: r => count_elem_nodes r end.
-(* isKidOK: "(p==DOCUMENT_NODE && ch==TEXT_NODE && isAllSpaces(value))" -- white-space-only text is accepted (and kept) *)
+(* isKidOK: "(p==DOCUMENT_NODE && ch==TEXT_NODE && isAllSpaces(value))" -- white-space-only text is accepted (and
+   kept); XMLChar1_0::isAllSpaces is false for the empty string, so an empty Text node (empty text inclusion) is not *)
+Definition doc_text_ok (s : str) : bool := match s with [] => false | _ => is_ws s end.
 Fixpoint has_text_node (l : list node) : bool :=
-  match l with [] => false | Text s :: r => negb (is_ws s) || has_text_node r | _ :: r => has_text_node r end.
+  match l with [] => false | Text s :: r => negb (doc_text_ok s) || has_text_node r | _ :: r => has_text_node r end.
 Definition doc_kids_ok (l : list node) : bool :=
   negb (has_text_node l) && Nat.leb (count_elem_nodes l) 1.
 
